@@ -4,10 +4,13 @@ from checks import lach_common as lc
 
 
 def run(c):
+    vx = lc.run_vecindex(c, c.pick(["v31_5", "v11_5"], ["v31_6", "v11_6", "v211_6"]), "forkless-cause", ["forkless-cause"])
+    c.guard("model_fc_answers", vx["total"].get("fc_answers", 0))
+    c.guard("model_states_with_forks", vx["total"].get("states_with_forks", 0))
     res = lc.run_profile(c, "c05", c.pick(8, 100), "forkless-cause")
     st = res["stats"]
     c.guard("fc_queries", st.get("fc_queries", 0))
     c.guard("fc_true", st.get("fc_true", 0))
     c.guard("restarts", st.get("restarts", 0))
     c.guard("epochs_with_cheaters", st.get("epochs_with_cheaters", 0))
-    return lc.finish(c, res, "random and all-pairs forkless-cause queries (warm, cold after restart, after failing adds), three indexing orders per DAG, forkers also beyond one third", extra=None)
+    return lc.finish(c, res, "random and all-pairs forkless-cause queries (warm, cold after restart, after failing adds), three indexing orders per DAG, forkers also beyond one third", extra=dict(vecindex_model=vx["total"], vecindex_sample=vx["sample"]))
